@@ -241,3 +241,29 @@ enum ChannelEndState {
     Claimed { owner: ConnectionId, capacity: u32 },
     Closed,
 }
+
+#[cfg(feature = "verif-hooks")]
+impl Channel {
+    pub(crate) fn verif_snapshot(&self, cookie: [u8; 16]) -> crate::verif::VerifChannel {
+        fn end(state: &ChannelEndState) -> crate::verif::VerifChannelEnd {
+            match state {
+                ChannelEndState::Unclaimed => crate::verif::VerifChannelEnd::Unclaimed,
+
+                ChannelEndState::Claimed { owner, capacity } => {
+                    crate::verif::VerifChannelEnd::Claimed {
+                        owner: owner.verif_id(),
+                        capacity: *capacity,
+                    }
+                }
+
+                ChannelEndState::Closed => crate::verif::VerifChannelEnd::Closed,
+            }
+        }
+
+        crate::verif::VerifChannel {
+            cookie,
+            sender: end(&self.sender),
+            receiver: end(&self.receiver),
+        }
+    }
+}
